@@ -1372,7 +1372,7 @@ package flags
 
 // Subcommand completion: exactly the non-hidden subcommands of the current
 // command whose name starts with the partial word.
-//@ pure func cmdOffered(c *completion, cmd *Command, match string) bool = cmd.data != c && !cmd.Hidden && hasPrefix(cmd.Name, match)
+//@ pure func cmdOffered(c *completion, cmd *Command, match string) bool = cmd.data != c && !cmd.Hidden && strings.HasPrefix(cmd.Name, match)
 //@ func (c *completion) completeCommands(s *parseState, match string) (r []Completion)
 //@   props C18 C04
 //@   requires s != nil && s.command != nil
@@ -1381,4 +1381,39 @@ package flags
 //@   loop 1 invariant forall(j, 0, idx_1, cmdOffered(c, s.command.commands[j], match) ==> exists(i, 0, len(n), n[i].Item == s.command.commands[j].Name))
 //@   ensures[C18] forall(i, 0, len(r), exists(j, 0, len(s.command.commands), cmdOffered(c, s.command.commands[j], match) && r[i].Item == s.command.commands[j].Name && r[i].Description == s.command.commands[j].ShortDescription))
 //@   ensures[C18] forall(j, 0, len(s.command.commands), cmdOffered(c, s.command.commands[j], match) ==> exists(i, 0, len(r), r[i].Item == s.command.commands[j].Name))
+//@   assigns nothing
+
+// Option-name completion: exactly the non-hidden entries of the long-name
+// table whose name starts with the partial word.  longItem(name) is the item
+// offered for a long name ("--" + name; kept opaque so that the quantified
+// invariants stay free of string theory, unfolded where an item is built).
+//@ assumed func longItem(name string) (r string)
+//@   pure
+//@ axiom manual longItem_def: forall name string :: longItem(name) == defaultLongOptDelimiter + name
+// pfx(name, match): name starts with match (opaque copy of strings.HasPrefix)
+//@ assumed func pfx(name string, match string) (r bool)
+//@   pure
+//@ axiom manual pfx_def: forall name string, match string :: pfx(name, match) == hasPrefix(name, match)
+//@ pure func longOff(s *parseState, name string, match string) bool = indom(s.lookup.longNames, name) && pfx(name, match) && !s.lookup.longNames[name].Hidden
+//@ assumed func shortItem(name string) (r string)
+//@   pure
+//@ axiom manual shortItem_def: forall name string :: shortItem(name) == string(defaultShortOptDelimiter) + name
+//@ pure func shortOff(s *parseState, name string, match string) bool = indom(s.lookup.shortNames, name) && pfx(name, match) && !s.lookup.shortNames[name].Hidden
+//@ pure func itemOK(s *parseState, it Completion, match string) bool = exists(name, string, (it.Item == longItem(name) && longOff(s, name, match) && it.Description == s.lookup.longNames[name].Description) || (it.Item == shortItem(name) && shortOff(s, name, match) && it.Description == s.lookup.shortNames[name].Description))
+// rankL(keys, k): how many of the first k keys, in the order the runtime
+// happens to range over the table, are offered.
+//@ pure func rankL(s *parseState, keys []string, match string, k int) int = ite(k <= 0, 0, rankL(s, keys, match, k-1) + ite(longOff(s, keys[k-1], match), 1, 0))
+//@ func (c *completion) completeOptionNames(s *parseState, prefix string, match string, short bool) (r []Completion)
+//@   nomerge
+//@   props C18 C04
+//@   requires s != nil
+//@   loop 1 invariant !isnil(repeats)
+//@   loop 1 invariant forall(i, 0, len(results), exists(k, 0, idx_1, results[i].Item == longItem(mkeys_1[k]) && longOff(s, mkeys_1[k], match) && results[i].Description == s.lookup.longNames[mkeys_1[k]].Description))
+//@   loop 1 invariant unfold(rankL(s, mkeys_1, match, idx_1 + 1)) && unfold(rankL(s, mkeys_1, match, 0)) && len(results) == rankL(s, mkeys_1, match, idx_1)
+//@   at call strings.HasPrefix #1: use(longItem_def, name) && use(pfx_def, name, match)
+//@   ensures[C18] short && len(match) != 0 ==> len(r) == 1 && r[0].Item == prefix + match
+//@   ensures[C18] !short ==> forall(i, 0, len(r), exists(name, string, r[i].Item == longItem(name) && longOff(s, name, match) && r[i].Description == s.lookup.longNames[name].Description))
+// (completeness is the counting invariant of loop 1: one item per offered key
+// of the table, whatever order the runtime ranges over it; it is not exported
+// as a postcondition because the order is a ghost of the loop)
 //@   assigns nothing
